@@ -24,6 +24,7 @@ def run(ctx):
     from component import run_corr
     run_corr(ctx, 'corr_lowerbool', 'boolean-branch lowering: hidc instruction text vs LowerBool model (labels included)')
     run_corr(ctx, 'corr_patterns', 'every emitted j classifies as a proved idiom; programs without time travel use only goto/branch/guard/return idioms')
+    diff_sweep(ctx, 'aliasing / evaluation-order corpus (global index or operand modified by the other operand, same array passed twice)', sweeps.alias_units(ws), extra=halts_extra(ctx), monitor=True)
     diff_sweep(ctx, 'sequential programs', units, extra=halts_extra(ctx), monitor=True)
     # unchecked builds of fault-free programs must behave identically (no faults feature here)
     units2 = program_units(rng, 30 if q else 300, ALL, ws, cfgs_per=2, seed_base=ctx.seed + 103, unchecked=True)
